@@ -91,10 +91,12 @@ class Store:
 
 
 class DtypeFlow:
-    def __init__(self, fn, attrs=None, calls=None, params=None):
+    def __init__(self, fn, attrs=None, calls=None, params=None, module=None, depth=0):
         """attrs: {'self.coord': atoms, 'system.box.origin': atoms} -- element types of attribute paths (resolved by the rule from the owning class);
         calls: {'self.grad_energy': atoms or callable(list of atoms)->atoms} -- element types returned by callees; params: {'name': atoms} to pin a parameter"""
         self.fn = fn
+        self.module = module if module is not None else getattr(fn, '_mod', None)     # helper functions of the same module are analysed with the caller's argument types
+        self.depth = depth
         self.attrs = dict(attrs or {})
         self.calls = dict(calls or {})
         a = fn.args
@@ -281,6 +283,22 @@ class DtypeFlow:
             return self.ev(args[0], env)
         if f == 'range':
             return frozenset([PI])
+        if isinstance(e.func, ast.Name) and self.module is not None and self.depth < 3:
+            callee = [n_ for n_ in self.module.body if isinstance(n_, ast.FunctionDef) and n_.name == e.func.id]
+            if len(callee) == 1 and not any(isinstance(a, ast.Starred) for a in args):
+                cp = [a.arg for a in callee[0].args.posonlyargs + callee[0].args.args]
+                bound = {}
+                for nm, a in zip(cp, args):
+                    bound[nm] = self.ev(a, env)
+                for k_, v_ in kw.items():
+                    if k_ in cp:
+                        bound[k_] = self.ev(v_, env)
+                sub = DtypeFlow(callee[0], attrs=self.attrs, calls=self.calls, params=bound, module=self.module, depth=self.depth + 1)
+                out = frozenset()
+                for _n, v_ in sub.returns:
+                    out |= v_
+                if out:
+                    return out
         if isinstance(e.func, ast.Attribute):
             m = e.func.attr
             recv = self.ev(e.func.value, env)
